@@ -15,8 +15,8 @@ theorem splitZero_append (s post : Bytes) (h : s.contains 0 = false) :
       intro hb; subst hb; simp at h
     simp [splitZero, hb, ih h.2]
 
-theorem ofNat_len_toInt (k : Nat) (h : k ≤ 2 ^ 48) :
-    ¬ ((BitVec.ofNat 64 k).toInt < 0 ∨ (BitVec.ofNat 64 k).toNat > 2 ^ 48) ∧ (BitVec.ofNat 64 k).toNat = k := by
+theorem ofNat_len_toInt (k : Nat) (h : k < 2 ^ 63) :
+    ¬ ((BitVec.ofNat 64 k).toInt < 0) ∧ (BitVec.ofNat 64 k).toNat = k := by
   have h1 : (BitVec.ofNat 64 k).toNat = k := by simp; omega
   rcases toInt_cases (BitVec.ofNat 64 k) with ⟨hc, ht⟩ | ⟨hc, ht⟩
   · rw [h1] at ht; omega
@@ -77,7 +77,7 @@ theorem unpackBody_packBody (e : Endian) (body : Body) (v : Val) (vt vs1 : List 
       · exact absurd hp (by simp)
       · injection hp with hp; injection hp with h1 h2
         subst h1; subst h2
-        have : (if n > 0 then n - s.length else 0) = 0 := by split <;> omega
+        have : n - s.length = 0 := by omega
         simp only [this, zeros, List.replicate_zero, List.append_nil, unpackBody]
         rw [takeN_append _ _ _ hx]
         simp
